@@ -24,7 +24,8 @@ NBADFRAMES = 7      # incompatible Frame objects in the pool (the rest are non-f
 
 
 def pool():
-    ok = [stg.Frame(fchans=4, tchans=2, df=1.0, dt=1.0, fch1=100.0, t_start=float(10 * i), seed=i) for i in range(4)]
+    # compatible frames (the guard compares df, dt, fchans, fmin); they need not have the same number of integrations
+    ok = [stg.Frame(fchans=4, tchans=(2, 2, 3, 1)[i], df=1.0, dt=1.0, fch1=100.0, t_start=float(10 * i), seed=i) for i in range(4)]
     bad = [stg.Frame(fchans=4, tchans=2, df=2.0, dt=1.0, fch1=103.0, t_start=0., seed=9),     # df differs (fmin equal)
            stg.Frame(fchans=4, tchans=2, df=1.0, dt=2.0, fch1=100.0, t_start=0., seed=9),     # dt differs
            stg.Frame(fchans=5, tchans=2, df=1.0, dt=1.0, fch1=101.0, t_start=0., seed=9),     # fchans differs (fmin equal)
